@@ -48,13 +48,16 @@ def gen_implicit_setup (env : Env) (self : GP) : GP :=
 
 -- generated from line_profiler/explicit_profiler.py:310 `GlobalProfiler.__call__` -- do not edit
 def gen_call (env : Env) (self : GP) : GP × Ret :=
-  if self.enabled ≠ some true then
+  if self.enabled = none then
     let self := gen_implicit_setup env self
     if self.enabled ≠ some true then
       (self, Ret.same)
     else
       (self, self.call_profile)
   else
-    (self, self.call_profile)
+    if self.enabled ≠ some true then
+      (self, Ret.same)
+    else
+      (self, self.call_profile)
 
 end LPVerif.Generated
